@@ -6,6 +6,15 @@ import numpy as np
 from vlib import enc
 
 MEASURES = ["newman_betweenness", "nsi_newman_betweenness", "nsi_arenas_betweenness"]
+# documented argument patterns of the distributed measures ("name~variant")
+VARIANTS = {"nsi_newman_betweenness~ends": ("nsi_newman_betweenness", {"add_local_ends": True}),
+            "nsi_arenas_betweenness~twinness": ("nsi_arenas_betweenness", {"stopping_mode": "twinness"}),
+            "nsi_arenas_betweenness~inclnb": ("nsi_arenas_betweenness", {"exclude_neighbors": False})}
+MEASURES_X = MEASURES + sorted(VARIANTS)
+
+
+def _split(measure):
+    return VARIANTS.get(measure, (measure, {}))
 
 
 def make_graph(sizes, seed):
@@ -39,7 +48,8 @@ def _tokens(hist):
 
 def _call(net, measure, silence):
     net.silence_level = silence
-    return getattr(net, measure)()
+    name, kw = _split(measure)
+    return getattr(net, name)(**kw)
 
 
 def run_case(c):
@@ -64,7 +74,7 @@ def run_case(c):
     try:
         with world:
             rec["dist"] = enc.arr(_call(net, c["measure"], c["silence"]))
-    except Exception as ex:
+    except (Exception, SystemExit) as ex:          # the master program may call sys.exit() when a job failed
         rec["dist"] = []
         exc = type(ex).__name__
     rec["exc"] = exc
@@ -129,14 +139,15 @@ def run_chunks(c):
     rec = dict(c)
     rec["exc"] = ""
     try:
+        base, kw = _split(c["measure"])
         with world:
-            getattr(net, c["measure"])()
+            getattr(net, base)(**kw)
         name, args = captured["calls"][0]
         import pyunicorn
         fn = eval(name, pyunicorn.__dict__)
         n = c["n"]
         cuts = [0] + list(c["cuts"]) + [n]
-        if c["measure"] == "newman_betweenness":
+        if base == "newman_betweenness":
             Afull = np.ascontiguousarray(A).astype(args[0].dtype)
             V = args[1]
             full = np.asarray(fn(Afull, V, n, 0, n)[0], dtype=float)
@@ -144,7 +155,7 @@ def run_chunks(c):
             for a, b in zip(cuts[:-1], cuts[1:]):
                 res, s, e = fn(np.ascontiguousarray(Afull[a:b, :]), V, n, a, b)
                 asm[s:e] = res
-        elif c["measure"] == "nsi_newman_betweenness":
+        elif base == "nsi_newman_betweenness":
             Afull = np.ascontiguousarray(A).astype(args[0].dtype)
             V, ww = args[1], args[3]
             nae = (1 - A - np.identity(n)).astype(args[4].dtype)
@@ -157,10 +168,13 @@ def run_chunks(c):
         else:
             N, sp_P, _, ww, _, _, _, excl, mode, _ = args
             Aplus = (A + np.identity(n)).astype(int)
-            full = np.asarray(fn(N, sp_P, Aplus, ww, ww, 0, n, excl, mode, None)[1][0], dtype=float)
+            tw = np.asarray(Network(adjacency=A.copy(), node_weights=w.copy(), silence_level=3).nsi_twinness()) \
+                if mode == "twinness" else None
+            full = np.asarray(fn(N, sp_P, Aplus, ww, ww, 0, n, excl, mode, tw)[1][0], dtype=float)
             asm = np.zeros(n)
             for a, b in zip(cuts[:-1], cuts[1:]):
-                err, res = fn(N, sp_P, Aplus[a:b, :], ww, ww[a:b], a, b, excl, mode, None)
+                err, res = fn(N, sp_P, Aplus[a:b, :], ww, ww[a:b], a, b, excl, mode,
+                              None if tw is None else tw[a:b, :])
                 asm += res[0]
         rec["full"] = enc.arr(full)
         rec["asm"] = enc.arr(asm)
@@ -180,8 +194,13 @@ def run_parallelize(c):
     try:
         a = Network(adjacency=A.copy(), node_weights=w.copy(), silence_level=3)
         b = Network(adjacency=A.copy(), node_weights=w.copy(), silence_level=3)
-        rec["serial"] = enc.arr(a.nsi_betweenness(parallelize=False))
-        rec["dist"] = enc.arr(b.nsi_betweenness(parallelize=True))
+        kw = {}
+        if c.get("st"):            # interregional: sources and targets differ
+            n = A.shape[0]
+            kw = {"sources": list(range(0, n, 3)), "targets": list(range(1, n, 2))}
+        kw["nsi"] = bool(c.get("nsi", 1))
+        rec["serial"] = enc.arr(a.nsi_betweenness(parallelize=False, **kw))
+        rec["dist"] = enc.arr(b.nsi_betweenness(parallelize=True, **kw))
     except Exception as ex:
         rec["exc"] = type(ex).__name__
         rec["serial"] = rec["dist"] = []
@@ -223,8 +242,8 @@ def main(ctx):
                            "behaviours": len(hs)})
         for h in hs:
             W, parts, hist = h[1], tuple(h[2]), h[3]
-            for mi, m in enumerate(MEASURES):
-                if ctx.tier == "quick" and (k + mi) % 3 != 0 and len(hs) > 30:
+            for mi, m in enumerate(MEASURES_X):
+                if ctx.tier == "quick" and (k + mi) % 6 != 0 and len(hs) > 30:
                     continue                      # quick: each behaviour on one measure
                 cases.append({"case": "b%d_%s" % (k, m), "blk": "tlc", "W": W, "sizes": SIZES[(W, parts)],
                               "gseed": ctx.seed + (k % 5), "measure": m, "silence": (k + mi) % 4,
@@ -232,13 +251,13 @@ def main(ctx):
             k += 1
     # ---- seeded schedules for other worker counts / sizes (2..N+2 workers)
     rng = random.Random(ctx.seed)
-    nrand = 60 if ctx.tier == "quick" else 600
+    nrand = 90 if ctx.tier == "quick" else 900
     for j in range(nrand):
         sizes = rng.choice([[12], [7, 6], [13, 5, 1], [21], [11, 11], [9, 3, 3, 2]])
         n = sum(sizes)
         W = rng.randint(2, n + 2) if j % 3 else rng.choice([2, n + 2])
         cases.append({"case": "p%d" % j, "blk": "policy", "W": W, "sizes": sizes, "gseed": ctx.seed + j,
-                      "measure": MEASURES[j % 3], "silence": j % 4,
+                      "measure": MEASURES_X[j % 6], "silence": j % 4,
                       "policy": ["lazy", "eager", "reverse", "random"][j % 4]})
     ctx.exhaustive = False
     ctx.extra["rule"] = (
@@ -256,12 +275,12 @@ def main(ctx):
     chunk_cases = ctx.gen_cached("Gen_C19_chunks", "Gen_C19_chunks_" + ctx.tier)
     cc = []
     for i, g in enumerate(chunk_cases):
-        for m in MEASURES:
+        for m in MEASURES_X:
             cc.append({"case": "k%d_%s" % (i, m), "blk": "chunks", "n": g["n"], "cuts": g["cuts"],
                        "gseed": ctx.seed + i % 3, "measure": m})
     recs2 = ctx.run_cases("props.c19.run_chunks", cc)
-    pool = [{"case": "pool%d" % j, "blk": "pool", "sizes": s, "gseed": ctx.seed + j}
-            for j, s in enumerate([[9, 4], [14]])]
+    pool = [{"case": "pool%d" % j, "blk": "pool", "sizes": s, "gseed": ctx.seed + j, "st": st, "nsi": nsi}
+            for j, (s, st, nsi) in enumerate([([9, 4], 0, 1), ([14], 0, 1), ([14], 1, 1), ([9, 4], 1, 0)])]
     recs3 = ctx.run_cases("props.c19.run_parallelize", pool, jobs=1)
     ctx.validate("Val_C19b", "Val_C19b", recs2 + recs3, stage="chunks+pool", nontrivial=_nontrivial)
 
